@@ -127,6 +127,12 @@ let replay ctx items =
     | _ -> "check-finished-err" in
   (string_of_int (List.length items) ^ Buffer.contents buf, real)
 
+let show_content (txs : atx list) =
+  String.concat " " (List.map (fun tx ->
+    let ix = List.sort compare (List.map int_of_n tx.x_inputs) in
+    String.concat "+" (List.map string_of_int ix) ^ "," ^ sn tx.x_fee ^ "," ^
+    String.concat ";" (List.map (fun (coin, _) -> sn coin) tx.x_outputs)) txs)
+
 let rec take n l = if n = 0 then ([], l) else match l with x :: r -> let (a, b) = take (n - 1) r in (x :: a, b) | [] -> failwith "short"
 let rec read_traces k toks acc =
   if k = 0 then List.rev acc else
@@ -153,13 +159,16 @@ let () = run_driver (fun toks impl ->
              | Some p -> String.concat "," (List.map sn (tx_summary p))
              | None -> "unparsed") ps in
          let tie = match sections with
-           | [_; tr; bs; _real] ->
+           | [_; tr; bs; _real; content] ->
              (match tr, bs with
               | nt :: trest, _nb :: bsizes ->
                 let ctx = build_ctx target a b cpb mvs mts raws bsizes in
                 let traces = read_traces (int_of_string nt) trest [] in
                 let rs = List.map (replay ctx) traces in
-                " | " ^ nt ^ " " ^ String.concat " " (List.map fst rs) ^ " | " ^ String.concat " " (List.map snd rs)
+                (* without assets the batcher is deterministic and modelled completely: predict the transactions *)
+                let predicted = if no_assets ctx then (match pure_send_all ctx with Ok txs -> show_content txs | _ -> "model-err")
+                                else String.concat " " content in
+                " | " ^ nt ^ " " ^ String.concat " " (List.map fst rs) ^ " | " ^ String.concat " " (List.map snd rs) ^ " | " ^ predicted
               | _ -> " | bad-hook-section")
            | _ -> "" in
          let m = "ok " ^ string_of_int k ^ " " ^ String.concat " " sums in
@@ -167,6 +176,10 @@ let () = run_driver (fun toks impl ->
          | [] -> (m ^ tie, "holds")
          | _ -> (m ^ " VIOL " ^ String.concat " " (List.map (fun (c, i) -> code_name c ^ "@" ^ sn i) viol) ^ tie, "fails:-")
        end
+     | "err" :: "|" :: _nb :: bsizes ->
+       let ctx = build_ctx target a b cpb mvs mts raws bsizes in
+       if no_assets ctx then (match pure_send_all ctx with Ok txs -> ("ok " ^ string_of_int (List.length txs) ^ " model-predicts-success", "na") | _ -> ("err", "na"))
+       else ("err", "na")
      | ["err"] -> ("err", "na")
      | ["panic"] -> ("panic", "na")
      | _ -> ("driver-badimpl", "na"))
